@@ -172,14 +172,33 @@ def build_job_inputs(job, d):
     return paths
 
 
+@contextlib.contextmanager
+def start_method(start):
+    """`start == "fork"`: the pool of `_multiprocessor_pattern_generator` asks
+    `torch.multiprocessing.get_context("spawn")` — hand it the `fork` context instead (a worker is
+    then ready in milliseconds; nothing else of the pool logic is touched). `"spawn"`: as is."""
+    if start != "fork":
+        yield
+        return
+    import torch.multiprocessing as tmp
+    orig = tmp.get_context
+    tmp.get_context = lambda method=None: orig("fork")
+    try:
+        yield
+    finally:
+        tmp.get_context = orig
+
+
 def run_job(job):
-    """Run job["steps"] (list of [function name, argv with {placeholders}]) for one
-    (workers, chunk) setting; return snapshot of the outputs."""
+    """Run job["steps"] (list of [function name, argv with {placeholders}, flags]) for one
+    (workers, chunk, start method) setting; return what the commands returned and a snapshot of
+    the outputs. An exception ends the pipeline; its class is part of the result (compared),
+    its message is kept aside (not compared: it may contain temporary paths)."""
     with tmpdir() as d:
         paths = build_job_inputs(job, d)
         for o in job["outputs"]:
             paths[o] = os.path.join(d, o)
-        res = {"returns": []}
+        res = {"returns": [], "messages": []}
         for fn, argv, flags in job["steps"]:
             argv = [a.format(**paths) for a in argv]
             if "w" in flags:
@@ -187,9 +206,11 @@ def run_job(job):
             if "c" in flags and job.get("chunk") is not None:
                 argv += ["--mp-chunk-size", str(job["chunk"])]
             try:
-                res["returns"].append(call(fn, argv))
+                with start_method(job.get("start", "spawn")):
+                    res["returns"].append(call(fn, argv))
             except Exception as e:  # noqa
                 res["returns"].append("raise:" + type(e).__name__)
+                res["messages"].append(f"{fn}: {type(e).__name__}: {str(e)[:200]}".replace(d, "<tmp>"))
                 break
         snap = {}
         for o in job["outputs"]:
@@ -202,6 +223,36 @@ def run_job(job):
                 snap[o] = None
         res["outputs"] = snap
         return res
+
+
+def diff_runs(steps, base, run):
+    """Where a run with workers differs from the serial run: command by command (return value /
+    exception class), then output by output, file by file. -> list of strings."""
+    out = []
+    for i, (a, b) in enumerate(zip(base["returns"], run["returns"])):
+        if a != b:
+            out.append(f"step {i + 1} ({steps[i][0]}) returned {b!r}, serial run {a!r}"
+                       + (f" [{'; '.join(run.get('messages', []))}]" if run.get("messages") else ""))
+    if len(base["returns"]) != len(run["returns"]) and not out:
+        out.append(f"{len(run['returns'])} steps ran, serial run {len(base['returns'])}")
+    for o in sorted(set(base["outputs"]) | set(run["outputs"])):
+        a, b = base["outputs"].get(o), run["outputs"].get(o)
+        if a == b:
+            continue
+        if not (isinstance(a, dict) and isinstance(b, dict)):
+            out.append(f"output {o}: {short_repr(b)}, serial run {short_repr(a)}")
+            continue
+        for f in sorted(set(a) | set(b)):
+            if a.get(f) != b.get(f):
+                out.append(f"output {o}/{f}: {short_repr(b.get(f))}, serial run {short_repr(a.get(f))}")
+    return out
+
+
+def short_repr(x, n=120):
+    if x is None:
+        return "missing"
+    s = json.dumps(x)
+    return s if len(s) <= n else s[:n] + "..."
 
 
 def snapshot_file(p):
@@ -217,6 +268,8 @@ def snapshot_file(p):
 def main(argv):
     repo = os.environ.get("VERIF_REPO", "/repo")
     sys.path.insert(0, os.path.join(repo, "src"))
+    import torch
+    torch.set_num_threads(1)   # no intra-op thread pool in a process that is going to fork
     with open(argv[1]) as f:
         jobs = json.load(f)
     out = []
